@@ -410,7 +410,12 @@ func (p *wat2wasmWorker) buildExportSection() error {
 		switch x.Kind {
 		case token.FUNC:
 			spec.Type = wasm.ExternTypeFunc
-			spec.Index = p.findFuncIndex(x.FuncIdx)
+			if x.FuncIdx == "" {
+				// (func (export "x") ...) without $name: the export refers to that very function
+				spec.Index = p.findFuncIndexByExportName(x.Name)
+			} else {
+				spec.Index = p.findFuncIndex(x.FuncIdx)
+			}
 		case token.MEMORY:
 			spec.Type = wasm.ExternTypeMemory
 			spec.Index = p.findMemoryIndex(x.MemoryIdx)
